@@ -26,6 +26,10 @@ def main():
         sh(["git", "checkout", "--", "."], "/repo"); sh(["git", "reset", "-q"], "/repo")
         return 2
     results = {}
+    saved = {}
+    for p in props:   # evidence committed under /verif must come from the unchanged tree
+        ep = os.path.join(ROOT, "evidence", p + ".json")
+        saved[p] = open(ep).read() if os.path.exists(ep) else None
     try:
         for p in props:
             t = time.time()
@@ -34,6 +38,10 @@ def main():
             results[p] = {"exit": rc, "lines": lines, "s": round(time.time() - t, 1)}
             print(p, "exit", rc, "|", " | ".join(lines))
     finally:
+        for p, txt in saved.items():
+            ep = os.path.join(ROOT, "evidence", p + ".json")
+            if txt is not None:
+                open(ep, "w").write(txt)
         sh(["git", "reset", "-q"], "/repo")
         sh(["git", "checkout", "--", "."], "/repo")
         sh(["git", "clean", "-fdq", "--", "."], "/repo")
